@@ -101,6 +101,8 @@ func verifC16Case(line string) (out string) {
 	}()
 	f := strings.Split(line, " ")
 	switch {
+	case f[0] == "cq":
+		return verifC16CQ(f)
 	case f[0] == "choose" && len(f) == 6:
 		reserve, err := strconv.ParseInt(f[1], 10, 64)
 		if err != nil {
